@@ -385,6 +385,7 @@ int main(int argc, char** argv)
   };
 
   bool last_granted = false, last_got = false;
+  std::vector<long> finished;   // records finished but not yet committed
   std::function<bool(std::vector<std::string> const&)> exec = [&](std::vector<std::string> const& tok) -> bool
   {
     std::string const& c = tok[0];
@@ -403,7 +404,7 @@ int main(int argc, char** argv)
       shim::g_view[0].clear(); shim::g_view[1].clear(); shim::g_ctor_race = false;
       shim::g_clk[0] = shim::g_clk[1] = shim::Clock{};
       f_early = f_overwr = f_content = f_oob = false; shim::g_dead_access = shim::g_bad_choice = false;
-      next_id = 1; wptr = rptr = nullptr;
+      next_id = 1; wptr = rptr = nullptr; finished.clear();
       shim::g_setup = true;
       bq = std::make_unique<BQ>(static_cast<T>(cap), quill::HugePagesPolicy::Never, static_cast<T>(pct));
       shim::g_setup = false;
@@ -455,8 +456,35 @@ int main(int argc, char** argv)
       else if (op == "fc")
       {
         bq->finish_write(static_cast<T>(wn)); bq->commit_write();
-        for (auto& r : g_recs) if (r.id == wid) r.committed = true;
+        finished.push_back(wid);
+        ev << ",\"id\":" << wid << ",\"ids\":[";
+        for (size_t i = 0; i < finished.size(); ++i)
+        {
+          for (auto& r : g_recs) if (r.id == finished[i]) r.committed = true;
+          ev << (i ? "," : "") << finished[i];
+        }
+        ev << "]";
+        finished.clear();
+      }
+      else if (op == "fw")
+      {
+        // finish_write without commit: the record is complete but must stay invisible to the consumer
+        bq->finish_write(static_cast<T>(wn));
+        finished.push_back(wid);
         ev << ",\"id\":" << wid;
+      }
+      else if (op == "cw")
+      {
+        // one commit_write publishes every finished record
+        bq->commit_write();
+        ev << ",\"ids\":[";
+        for (size_t i = 0; i < finished.size(); ++i)
+        {
+          for (auto& r : g_recs) if (r.id == finished[i]) r.committed = true;
+          ev << (i ? "," : "") << finished[i];
+        }
+        ev << "]";
+        finished.clear();
       }
       else if (op == "pr")
       {
@@ -571,7 +599,18 @@ int main(int argc, char** argv)
       {
         if (ppc == 0) { exec({"P", "pw", "n=" + std::to_string(sz()), "ld=-1"}); if (last_granted) ppc = 1; }
         else if (ppc == 1) { exec({"P", "write"}); ppc = 2; }
-        else { exec({"P", "fc"}); ppc = 0; }
+        else if (ppc == 2)
+        {
+          // finish+commit in one go, or finish only (batched commit: further reservations - granted or refused - may follow
+          // before the commit, and nothing finished may become visible before it)
+          if (shim::rnd() % 2 == 0) { exec({"P", "fc"}); ppc = 0; }
+          else { exec({"P", "fw"}); ppc = 3; }
+        }
+        else
+        {
+          if (shim::rnd() % 2 == 0) { exec({"P", "cw"}); ppc = 0; }
+          else { exec({"P", "pw", "n=" + std::to_string(sz()), "ld=-1"}); if (last_granted) ppc = 1; }
+        }
       }
       else
       {
